@@ -72,7 +72,85 @@ impl LoopSignal {
 //@ enditem
 //@ close
 
+//@ region loop_ctor_specs props=C11,C09,C13,C14,C06
+/// Rule R28: `Default::default()` for the field `sources_with_additional_lifecycle_events: RefCell<AdditionalLifecycleEventsSet>`
+/// becomes a call of this stand-in. ASSUMED: `RefCell<T>::default()` is `RefCell::new(T::default())` (std) and the derived
+/// `Default` of AdditionalLifecycleEventsSet (one Vec field) is the empty set.
+#[verifier::external_body]
+fn lifecycle_set_default() -> (r: RefCell<AdditionalLifecycleEventsSet>)
+    ensures crate::ext::refcell_init(&r)@.len() == 0,
+{ Default::default() }
+/// what an AtomicBool was created with (ghost); identity stand-in for `AtomicBool::new(v)` (rule R19)
+pub uninterp spec fn flag_init(a: &AtomicBool) -> bool;
+#[verifier::external_body]
+fn flag_new(v: bool) -> (r: AtomicBool)
+    ensures flag_init(&r) == v,
+{ AtomicBool::new(v) }
+/// what a Cell was created with (ghost; says nothing about later contents)
+pub uninterp spec fn cell_init<T>(c: &Cell<T>) -> T;
+#[verifier::external_body]
+fn cell_new<T>(v: T) -> (r: Cell<T>)
+    ensures cell_init(&r) == v,
+{ Cell::new(v) }
+impl<'l, Data> EventLoop<'l, Data> {
+    /// the poller wake-ups from this loop's own handles (block_on's waker) go to
+    pub closed spec fn own_poller(&self) -> Poller { *self.poller }
+    pub closed spec fn inner(&self) -> Rc<LoopInner<'l, Data>> { self.handle.inner }
+    pub closed spec fn sig(&self) -> Arc<Signals> { self.signals }
+    pub closed spec fn pending_synthetic(&self) -> Seq<PollEvent> { self.synthetic_events@ }
+    // what the loop's cells were created with (ghost accessors: LoopInner is crate-private)
+    pub closed spec fn init_poll(&self) -> Poll { crate::ext::refcell_init(&self.handle.inner.poll) }
+    pub closed spec fn init_pending(&self) -> PostAction { cell_init(&self.handle.inner.pending_action) }
+    pub closed spec fn init_slots(&self) -> nat { crate::ext::refcell_init(&self.handle.inner.sources)@.len() }
+    pub closed spec fn init_slots_wf(&self) -> bool { crate::ext::refcell_init(&self.handle.inner.sources).wf() }
+    pub closed spec fn init_idles(&self) -> nat { crate::ext::refcell_init(&self.handle.inner.idles)@.len() }
+    pub closed spec fn init_lifecycle(&self) -> nat { crate::ext::refcell_init(&self.handle.inner.sources_with_additional_lifecycle_events)@.len() }
+    pub closed spec fn init_timers_fresh(&self) -> bool { crate::ext::refcell_init(&*crate::ext::refcell_init(&self.handle.inner.poll).timers).is_fresh() }
+}
+impl<'l, Data> LoopHandle<'l, Data> {
+    pub closed spec fn inner(&self) -> Rc<LoopInner<'l, Data>> { self.inner }
+}
+impl LoopSignal {
+    pub closed spec fn sig(&self) -> Arc<Signals> { self.signal }
+}
+//@ endregion
+//@ open src/loop_logic.rs / impl Clone for LoopHandle<'_, Data>
+//@ item src/loop_logic.rs / impl Clone for LoopHandle<'_, Data> / fn clone props=C11,C06 ret=r
+//@ spec
+        ensures
+            // a cloned handle operates on the same loop state
+            r.inner() == self.inner(),
+//@ enditem
+//@ close
 //@ open src/loop_logic.rs / impl EventLoop<'l, Data>
+//@ item src/loop_logic.rs / impl EventLoop<'l, Data> / fn try_new props=C11,C09,C13,C14,C06 ret=r
+//@ rw R19 * <<AtomicBool::new(>> => <<flag_new(>>
+//@ rw R28 1 <<sources_with_additional_lifecycle_events: Default::default()>> => <<sources_with_additional_lifecycle_events: lifecycle_set_default()>>
+//@ rw R28 1 <<pending_action: Cell::new(>> => <<pending_action: cell_new(>>
+//@ after <<let poll = Poll::new()?;>>
+        proof { poll.lemma_pl(); }
+//@ spec
+        ensures
+            // C11: the poller the loop's own wake-up handles notify is the one its Poll waits on
+            r matches Ok(l) ==> l.own_poller() == l.init_poll().pl(),
+            // C11: a fresh loop is not stopped, and no future is marked ready
+            r matches Ok(l) ==> !flag_init(l.stop_flag()) && !flag_init(l.ready_flag()),
+            // C09: nothing is deferred before the first event
+            r matches Ok(l) ==> l.init_pending() == PostAction::Continue,
+            // C06/C01: no slot, C13: no idle, C14: no lifecycle entry, no synthetic event left over
+            r matches Ok(l) ==> l.init_slots() == 0 && l.init_slots_wf(),
+            r matches Ok(l) ==> l.init_idles() == 0,
+            r matches Ok(l) ==> l.init_lifecycle() == 0,
+            r matches Ok(l) ==> l.pending_synthetic().len() == 0,
+            // C05: no timer armed
+            r matches Ok(l) ==> l.init_timers_fresh(),
+//@ enditem
+//@ item src/loop_logic.rs / impl EventLoop<'l, Data> / fn handle props=C11,C06 ret=r
+//@ spec
+        ensures
+            // every handle operates on this loop's state
+            r.inner() == self.inner(),
+//@ enditem
 //@ item src/loop_logic.rs / impl EventLoop<'l, Data> / fn run props=C11 ret=r
 //@ rw R19 * <<self.signals.stop.store(>> => <<flag_store(&self.signals.stop, >>
 //@ rw R19 * <<self.signals.stop.load(Ordering::Acquire)>> => <<flag_load_at(&self.signals.stop, Ordering::Acquire, Ghost(*data))>>
@@ -167,6 +245,19 @@ impl<'l, Data> EventLoop<'l, Data> {
 //@ endslice
 }
 
+impl<'l, Data> EventLoop<'l, Data> {
+//@ slice src/loop_logic.rs / impl EventLoop<'l, Data> / fn get_signal :: body props=C11 name=EventLoop::get_signal
+//@ rw R10 1 <<self.handle.inner.poll.borrow()>> => <<poll>>
+//@ sig
+    /// S1 slice: the whole body of EventLoop::get_signal; rule R10: the borrow of the loop's Poll cell becomes `poll`.
+    fn get_signal_body(&self, poll: &Poll) -> (r: LoopSignal)
+//@ spec
+        ensures
+            // C11: stop() raises the very flag run()/block_on() test, wakeup() notifies the poller the loop's Poll waits on
+            r.sig() == self.sig(),
+            r.note().pl() == poll.pl(),
+//@ endslice
+}
 impl LoopSignal {
     pub closed spec fn ready_flag(&self) -> &AtomicBool { &self.signal.future_ready }
 //@ slice src/loop_logic.rs / impl EventLoop<'l, Data> / fn block_on :: stmts <<self.0.signal.future_ready.store(>>#1/2 .. <<self.0.notifier.notify().ok();>>#1/2 props=C11 name=EventLoop::block_on::EventLoopWaker::wake
